@@ -11,7 +11,7 @@ import Bclv.Model.DumpW
 # Line-protocol driver: one operation per input line, one result line per operation.
 All payloads are hexadecimal.
 -/
-open Bclv
+open Bclv Bclv.Buf
 
 def hexDigit (n : Nat) : Char := if n < 10 then Char.ofNat (48 + n) else Char.ofNat (87 + n)
 
